@@ -1092,7 +1092,16 @@ class Machine(object):
         st.frames.pop()
         nf.locals[1].val = value
         if not nf.data.get("quiet"):
-            st.effects.append(("iterate_end", nf.data["mode"], nf.data["src"], nf.data["loc"]))
+            res = "unit"
+            if nf.data["mode"] != "for_each":
+                v = deref_val(value)
+                if isinstance(v, AdtVal) and v.vname in ("Continue", "Some", "Ok"):
+                    res = "continue"
+                elif isinstance(v, AdtVal) and v.vname in ("Break", "None", "Err"):
+                    res = "break"   # the generic element made the iteration stop: later elements are not processed
+                else:
+                    res = "unknown"
+            st.effects.append(("iterate_end", nf.data["mode"], nf.data["src"], nf.data["loc"], res))
         return None
 
     def native_advance(self, st, nf):
@@ -1291,6 +1300,24 @@ def decode_fmt_template(b):
         else:
             return None
     return None
+
+
+def iteration_problems(path):
+    """early exits hidden by the one-generic-element model: a `for` loop left before its iterator is exhausted
+    (break / return inside the body) or a try_for_each whose closure short-circuits on the generic element"""
+    out = []
+    open_next = []
+    for e in path.effects:
+        if e[0] == "next":
+            open_next.append(e[1])
+        elif e[0] == "next_end" and e[1] in open_next:
+            open_next.remove(e[1])
+        elif e[0] == "iterate_end" and len(e) > 4 and e[4] == "break":
+            out.append("the %s over %s stops at this element (its closure short-circuits): elements after it are not processed" % (e[1], fmt_label(e[2])))
+    for src in open_next:
+        if path.exit == "return":
+            out.append("the loop over %s is left before the iterator is exhausted (break / return in the body): elements after this one are not processed" % fmt_label(src))
+    return out
 
 
 def base_label(l):
